@@ -638,6 +638,15 @@ R('validate', 1,
       header=w.arg(('a', 'b', 'c')))],
   'transform.validation', stream=FIL0)
 
+# (the container tested against is itself a lazy view over another source:
+# nothing of it may be read before rows are requested)
+R('selectin-lazy', 2,
+  [lambda e, w: e.selectin(w.s[0], 'a', e.values(w.s[1], 'a')),
+   lambda e, w: e.selectnotin(w.s[0], 'a', e.values(w.s[1], 'a')),
+   lambda e, w: e.selectin(w.s[0], 'a', e.values(e.cut(w.s[1], 'a'), 'a'),
+                           complement=True)],
+  'transform.selects', stream=FIL0, build=(1,))
+
 # -- transform.hashjoins
 R('hashjoin', 2,
   [lambda e, w: e.hashjoin(w.s[0], w.s[1], key='a'),
